@@ -1,8 +1,8 @@
 package props
 
 import (
-	"go/types"
 	"fmt"
+	"go/types"
 	"strings"
 
 	"golang.org/x/tools/go/ssa"
@@ -257,6 +257,8 @@ func C07(p *ir.Program, r *report.R) {
 			}
 			r.Check("K2", "utxo.(*UtxoStore).SaveUtxo/SaveKImages/on-every-path", p.Pos(su2.Pos()), !found, d)
 		}
+		// the mempool's key-image set is rebuilt from the pending transactions after every commit
+		mempoolRecheckRules(c)
 		// membership structures for key images are keyed by the image VALUE (a pointer key would
 		// compare identities: two transactions carrying the same image have different pointers)
 		for _, fld := range []struct{ rel, name string }{{"app", "processState.KeyImagesMap"}, {"mempool", "Mempool.kImageCache"}} {
